@@ -275,6 +275,7 @@ type c40World struct {
 	exclClass         string
 	lastIdx           common.Range[uint64] // IndexedBlocks as last sampled by indexed()
 	lastIdxOK         bool
+	noBranchSwitch    bool   // prepare() must not draw a switch back to a remembered branch (see there)
 	everLimited       bool   // some indexer instance of this scenario ran with a history limit
 	revertedSinceIdle bool   // a head switch removed canonical blocks since the indexer was last known idle
 	release           func() // non-nil while the harness withholds an indexer step (see valve)
@@ -1053,7 +1054,7 @@ func (w *c40World) prepare(maxGrow int) ([]*c40Blk, string) {
 	rt := w.rt
 	n := len(w.canon)
 	kind := rapid.IntRange(0, 9).Draw(rt, "chainOp")
-	if kind >= 8 && len(w.saved) == 0 {
+	if kind >= 8 && (len(w.saved) == 0 || w.noBranchSwitch || w.frozen) {
 		kind = 3
 	}
 	if kind >= 3 && kind <= 6 && n < 8 {
@@ -1084,6 +1085,18 @@ func (w *c40World) prepare(maxGrow int) ([]*c40Blk, string) {
 	case kind == 7: // nothing
 		return w.canon, "none"
 	default: // back to a remembered branch, at a drawn height
+		// Restoring canonical entries that were canonical before is the one operation that can present
+		// an A->B->A history to a live ChainView: ChainView.blockHash reads GetCanonicalHash(number)
+		// and only afterwards checks (extendNonCanonical) that the view's known tail is canonical; if the
+		// index is switched away and back between the two reads it returns the hash (or zero hash ->
+		// "header not found") that was canonical in between. BlockChain cannot perform two reorgs inside
+		// that window, so the harness must not either: a branch is only restored while no query runs
+		// and the indexer is idle on the current chain (it then holds views of the current chain only
+		// and is not inside blockHash), never as one of several switches during one query.
+		if w.be.fm != nil && !w.disabled {
+			w.setTarget()
+			w.waitIdle()
+		}
 		s := w.saved[rapid.IntRange(0, len(w.saved)-1).Draw(rt, "saved")]
 		h := rapid.IntRange(min(3, len(s)-1), len(s)-1).Draw(rt, "savedHead")
 		w.saved = append(w.saved, slices.Clone(w.canon))
@@ -1252,7 +1265,9 @@ func (w *c40World) concurrent(st *vs.S, maxGrow int) {
 		// prepare against the chain as it will be when the op is committed
 		saveCanon := w.canon
 		w.canon = cur
+		w.noBranchSwitch = true
 		next, op := w.prepare(maxGrow)
+		w.noBranchSwitch = false
 		w.canon = saveCanon
 		ops = append(ops, prepared{next, op})
 		cands = append(cands, next)
